@@ -847,7 +847,12 @@ fn create_archive(
         return Ok(());
     }
 
-    Ok(())
+    // --batch: the legacy batch pipeline is no longer wired to this command. Falling through
+    // used to report success without writing any archive.
+    anyhow::bail!(
+        "--batch (legacy batch mode) is not available in this build; \
+         run without --batch to use the streaming queue pipeline"
+    )
 }
 
 fn write_bin<P: AsRef<Path>>(path: P, data: &[u8]) -> Result<()> {
